@@ -76,13 +76,30 @@ def diff(a, b, path=""):
     return [(path, str(a)[:90], str(b)[:90])]
 
 
+def _param_value_fp(v, depth=0):
+    """Parameter values: nested estimators count by class and by their own parameters only (their
+    fitted attributes are not part of what get_params reports)."""
+    if hasattr(v, "get_params") and not isinstance(v, type):
+        try:
+            p = v.get_params(deep=False)
+        except Exception:
+            return fp(v)
+        return ("estimator", type(v).__module__, type(v).__qualname__,
+                tuple(sorted((k, _param_value_fp(x, depth + 1)) for k, x in p.items())))
+    if isinstance(v, (list, tuple)) and depth < 6:
+        return (type(v).__name__, tuple(_param_value_fp(x, depth + 1) for x in v))
+    if isinstance(v, dict) and depth < 6:
+        return ("dict", tuple(sorted((repr(k), _param_value_fp(x, depth + 1)) for k, x in v.items())))
+    return fp(v)
+
+
 def params_fp(est):
     """Fingerprint of get_params(deep=True) including the contents of dict-valued parameters."""
     try:
         p = est.get_params(deep=True)
     except Exception as e:  # get_params itself broken
         return ("get_params-raises", repr(e)[:100])
-    return fp(p)
+    return ("dict", tuple(sorted((repr(k), _param_value_fp(v)) for k, v in p.items())))
 
 
 def fitted_fp(est, skip=()):
